@@ -367,7 +367,11 @@ func c20history(t *testing.T, pctx context.Context, out *vharness.Out, rng *rand
 		seed := make([]byte, 32)
 		crand.Read(seed)
 		sc := &protocoltypes.ShareableContact{Pk: craw, PublicRendezvousSeed: seed, Metadata: []byte(fmt.Sprintf("m%d", i))}
-		switch rng.Intn(5) {
+		choice := rng.Intn(5)
+		if i == nops-1 && len(w.groups) < 2 {
+			choice = 4 // every history has at least one joined group with messages next to the account group (whose message log is empty)
+		}
+		switch choice {
 		case 0:
 			must(ms.ContactRequestOutgoingEnqueue(ctx, sc, []byte("own")))
 			desc = append(desc, "enqueue")
@@ -421,13 +425,17 @@ func c20history(t *testing.T, pctx context.Context, out *vharness.Out, rng *rand
 	for _, g := range w.groups {
 		svc.openedGroups[string(g.g.PublicKey)] = g.gc
 	}
-	// through the streaming RPC handler (ServiceExportData), which wraps service.export
-	exp := &c20exportStream{ctx: ctx}
-	if err := svc.ServiceExportData(&protocoltypes.ServiceExportData_Request{},
-		&grpc.GenericServerStream[protocoltypes.ServiceExportData_Request, protocoltypes.ServiceExportData_Reply]{ServerStream: exp}); err != nil {
-		t.Fatal(err)
+	// through the streaming RPC handler (ServiceExportData), which wraps service.export; the groups are
+	// written in map-iteration order, so several exports are taken and every one is checked file by file
+	doExport := func() []byte {
+		exp := &c20exportStream{ctx: ctx}
+		if err := svc.ServiceExportData(&protocoltypes.ServiceExportData_Request{},
+			&grpc.GenericServerStream[protocoltypes.ServiceExportData_Request, protocoltypes.ServiceExportData_Reply]{ServerStream: exp}); err != nil {
+			t.Fatal(err)
+		}
+		return exp.buf.Bytes()
 	}
-	archive := exp.buf.Bytes()
+	archive := doExport()
 	files := c20parse(archive)
 	wantLogs, wantState, _ := w.logsOf(func(g *protocoltypes.Group) (*GroupContext, error) {
 		for _, x := range w.groups {
@@ -449,7 +457,11 @@ func c20history(t *testing.T, pctx context.Context, out *vharness.Out, rng *rand
 	accKey, proofKey, _ := a.ss.ExportAccountKeysForBackup()
 
 	// --- the archive itself: keys, every entry byte-for-byte under its identifier, heads
-	{
+	for exportNo := 0; exportNo < 6; exportNo++ {
+		files := files
+		if exportNo > 0 {
+			files = c20parse(doExport())
+		}
 		ok, note := true, ""
 		byName := map[string][]byte{}
 		for _, f := range files {
@@ -495,7 +507,7 @@ func c20history(t *testing.T, pctx context.Context, out *vharness.Out, rng *rand
 		}
 		out.Emit(vharness.Case{
 			Kind: "archive", Coq: "CRestore false [FKey KAccount (BKey 1); FKey KProof (BKey 2)] 0 []",
-			Key:  fmt.Sprintf("archive|%d|%v", hi, desc), Nontrivial: len(files) > 4, OracleOK: ok, Note: note,
+			Key:  fmt.Sprintf("archive|%d|%d|%v", hi, exportNo, desc), Nontrivial: len(files) > 4, OracleOK: ok, Note: note,
 			Sig: "account export: archive content wrong", Replay: map[string]any{"history": desc},
 		})
 	}
